@@ -322,7 +322,39 @@ def r03_6(ctx):
     ctx.run_rule("R03.6", "no tag token once the input ended inside the tag", body, floor=3)
 
 
+UTF8_BOUNDARY_FNS = ("error_len", "valid_up_to", "utf8_error", "is_char_boundary", "utf8_chunks", "floor_char_boundary", "ceil_char_boundary", "from_utf8_lossy")
+
+
+def r03_7(ctx):
+    """A chunk may end in the middle of a multi-byte character.  The token text is decoded as UTF-8 and a
+    decoding error abandons filtering; so the bytes of an *incomplete trailing sequence* must be told apart
+    from invalid data (and held back), otherwise the output depends on where the chunk was cut."""
+    F = ctx.facts
+
+    def body(r):
+        f = F.method(HF, "filter")
+        r.analysed(f)
+        cg = F.callgraph()
+        reach = [F.fns[p] for p in cg.reachable([f]) if F.fns[p].file.startswith("src/html/") or F.fns[p].file.startswith("src/filter/html_")]
+        decoders = []
+        handlers = []
+        for g in reach:
+            for bi, t_, cal in g.calls():
+                if cal is None or cal.local:
+                    continue
+                if cal.name in ("from_utf8", "from_utf8_unchecked") and (cal.adt in ("std::string::String",) or "str" in cal.path):
+                    decoders.append((g, span_line(t_["s"])))
+                if cal.name in UTF8_BOUNDARY_FNS:
+                    handlers.append((g, cal.name))
+        r.ob("utf8:decoders-found", len(decoders) >= 1, f.site, "%d UTF-8 decoding sites behind HtmlFilterBodyAction::filter: %s" % (len(decoders), sorted({g.key.rsplit("::", 1)[1] for g, _ in decoders})))
+        r.ob("utf8:HtmlFilterBodyAction::filter:incomplete-trailing-sequence", bool(handlers), f.site,
+             "an incomplete trailing sequence is told apart from invalid data (%s)" % sorted({n for _, n in handlers}) if handlers else
+             "token bytes are decoded with from_utf8 and any error abandons filtering; nothing inspects error_len()/valid_up_to() or holds back an incomplete trailing sequence: a chunk boundary inside a multi-byte character turns the filter off for the rest of the body")
+    ctx.run_rule("R03.7", "a chunk boundary inside a multi-byte character is not a decoding error", body, floor=2)
+
+
 def run(ctx):
+    r03_7(ctx)
     r03_5(ctx)
     r03_6(ctx)
     r03_1(ctx)
